@@ -97,17 +97,20 @@ Reaches(a, b, Es, bound) == b \in ReachFrom({a}, Es, bound)
 \* guarantee 1 + 2: accesses of two different nodes, at least one of them a write, are ordered
 QConflictsOrderedOf(h) ==
     LET Es == TLCEval(EdgesOfHist(h)) IN
-    \A p, q \in DOMAIN h : (p < q /\ h[p].n # h[q].n /\ (IsW(h, p) \/ IsW(h, q)))
-                              => Reaches(h[p].n, h[q].n, Es, Len(h) + 1)
+    \A p \in DOMAIN h :
+        LET later == {h[q].n : q \in {q \in (p + 1)..Len(h) : h[q].n # h[p].n /\ (IsW(h, p) \/ IsW(h, q))}} IN
+        later # {} => later \subseteq ReachFrom({h[p].n}, Es, Len(h) + 1)
 \* guarantee 3 (C23 clause (b)): two nodes that only read the resource, with no write between their reads,
 \* are not related by the transitive closure of the cell's dependencies
 OnlyReads(h, node) == \A p \in DOMAIN h : h[p].n = node => ~IsW(h, p)
 QReadsUnorderedOf(h) ==
     LET Es == TLCEval(EdgesOfHist(h)) IN
-    \A p, q \in DOMAIN h :
-        (p < q /\ h[p].n # h[q].n /\ OnlyReads(h, h[p].n) /\ OnlyReads(h, h[q].n)
-           /\ \A m \in p..q : ~IsW(h, m))
-        => (~Reaches(h[p].n, h[q].n, Es, Len(h) + 1) /\ ~Reaches(h[q].n, h[p].n, Es, Len(h) + 1))
+    \A p \in {p \in DOMAIN h : OnlyReads(h, h[p].n)} :
+        LET lo(q) == IF p < q THEN p ELSE q
+            hi(q) == IF p < q THEN q ELSE p
+            peers == {h[q].n : q \in {q \in DOMAIN h : /\ h[q].n # h[p].n /\ OnlyReads(h, h[q].n)
+                                                       /\ \A m \in lo(q)..hi(q) : ~IsW(h, m)}}
+        IN peers # {} => peers \cap ReachFrom({h[p].n}, Es, Len(h) + 1) = {}
 \* a dependency always points to an earlier access (or the initial writer)
 QDepsEarlierOf(i, h) == \A p \in DOMAIN h : \A d \in h[p].deps :
                           (d \in InitialWriter(i)) \/ (\E q \in 1..(p - 1) : h[q].n = d.n)
